@@ -142,6 +142,7 @@ def translate() -> tuple[str, dict]:
             key_trees[rel] = ast.parse(path.read_text(encoding='utf8'))
     key_rows, key_exposed, key_reads = c08_keys.keys_census(key_trees)
     node_registers = c08_keys.node_setitem_registers(trees['vmf.py'])
+    fx_rows, fx_exposed, fx_reads = c08_keys.fixup_census(trees)
     lines = [
         '(* GENERATED by translate/c08_sites.py from /repo/src/srctools/vmf.py, instancing.py. Do not edit. *)',
         'From Coq Require Import ZArith List String.', 'Import ListNotations.', 'Open Scope string_scope.',
@@ -178,6 +179,11 @@ def translate() -> tuple[str, dict]:
         ';\n'.join('  ("%s", "%s", %s, %s)' % (f, d.replace('"', '""'), c, 'true' if ok else 'false') for f, d, c, ok, _ in key_rows),
         '].',
         f'Definition node_setitem_registers : bool := {"true" if node_registers else "false"}.',
+        '(* every place that can put a value into the index table of an EntityFixup: the constructor\'s accepting store and',
+        '   the lowest-unused-index store of __setitem__ (both recognised above), or an index-preserving duplicate *)',
+        'Definition fixup_write_sites : list (string * string * kwsite * bool) := [',
+        ';\n'.join('  ("%s", "%s", %s, %s)' % (f, d.replace('"', '""'), c, 'true' if ok else 'false') for f, d, c, ok, _ in fx_rows),
+        '].',
         '',
     ]
     side.update(releases=[list(r) for r in releases], acquires=[list(a) for a in acquires],
@@ -186,6 +192,7 @@ def translate() -> tuple[str, dict]:
                 copy_sites=[list(c) for c in copy_rows], node_realloc_on_add=node_realloc, node_release_in_del=node_in_del,
                 keys_write_sites=[list(r) for r in key_rows], keys_exposed=key_exposed, keys_read_sites=key_reads,
                 node_setitem_registers=node_registers,
+                fixup_write_sites=[list(r) for r in fx_rows], fixup_exposed=fx_exposed, fixup_read_sites=fx_reads,
                 node_copy_registers=all(ok for _, _, c, ok, _ in key_rows if c == 'KwCtor'))
     return '\n'.join(lines), side
 
